@@ -542,7 +542,7 @@ func buildCorrSuite(ctx *Ctx, r *Rng, n int) {
 		}
 	}
 	for i := 0; i < n/4; i++ {
-		docs = append(docs, collisionDoc(r), hostileDoc(r), bodylessDoc(r), similarRootDoc(r))
+		docs = append(docs, collisionDoc(r), hostileDoc(r), bodylessDoc(r), similarRootDoc(r), twoRequestsDoc(r))
 	}
 	var fixtures [][]byte
 	for _, f := range fixtureFiles() {
@@ -579,4 +579,17 @@ func similarRootDoc(r *Rng) []byte {
 		return fmt.Sprintf("URL %s\n  Protocol json-rpc-2.0\n  Method m%d\n    Params\n    {}\n", p, i)
 	}
 	return []byte("JSIGHT 0.3\n" + block(p1, 1) + "TYPE @t\n{}\n" + block(p2, 2))
+}
+
+// twoRequestsDoc: one method with two Request directives whose contents complement one another (headers in one,
+// the body in the other; `Request any` and a Request with Headers), in both orders, and controls with one Request
+func twoRequestsDoc(r *Rng) []byte {
+	parts := []string{"  Request\n    Headers\n    {\"h\": 1}\n", "  Request\n    Body\n    {\"a\": 1}\n", "  Request any\n", "  Request\n  {\"b\": 2}\n",
+		"  Request\n    Headers\n    {\"h\": 1}\n    Body any\n"}
+	a, b := parts[r.Intn(len(parts))], parts[r.Intn(len(parts))]
+	between := []string{"", "  Query\n  {}\n", "  Description\n  (\n    text\n  )\n"}[r.Intn(3)]
+	if r.Chance(1, 4) {
+		b = "" // control: a single Request
+	}
+	return []byte("JSIGHT 0.3\nPOST /p\n" + a + between + b + "  200 any\n")
 }
